@@ -450,6 +450,13 @@ def long_cases(tier):
     for n in (1200,) if tier == "quick" else (1200, 5000):
         for score, msl, M, g, ts in (("CUSUM", 5, 200, 1.5, 1.0), ("L2cost", 10, 300, 2.0, 2.0)):
             yield {"fam": "data", "x": util.very_long_series(n), "n": n, "score": score, "msl": msl, "M": M, "growth": g, "thr_scale": ts, "timeout": 900}
+    # realistic lengths with candidate intervals as long as the series (64 and more samples)
+    for n, msl, M, g in ((72, 4, 72, 1.5),) if tier == "quick" else ((72, 4, 72, 1.5), (100, 7, 100, 1.3), (136, 3, 136, 2.0)):
+        for cps, xs in util.structured_series(n, 2, (0.0, 3.0)):
+            if len(cps) == 2 and (cps[0] * 3 + cps[1]) % (8 if tier == "quick" else 2):
+                continue
+            for score, ts in (("CUSUM", 0.5), ("L2cost", 1.0)):
+                yield {"fam": "data", "x": list(xs), "n": n, "score": score, "msl": msl, "M": M, "growth": g, "thr_scale": ts, "timeout": 300}
     for n in (12, 16, 24) if tier == "quick" else (12, 16, 24, 32, 40):
         for msl, M, g in ((1, 8, 1.5), (4, n, 1.5), (5, 12, 2.0), (2, n, 1.25)):
             if n < 2 * msl or M < 2 * msl:
@@ -478,7 +485,7 @@ def bounds(tier, seed):
         "levels": "multiples (0,1,2,3) of the read-back threshold; 1 = exact tie with the threshold",
         "shapes": "plain; 'tight' = levels 2, 3 exceed the threshold by only 2^-20, 2^-19 of its size; 'neg' = every admissible score negative (level - 5 units)",
         "greedy-dev": "n in (8,9,10,12) quick / (7..14,16) thorough, msl<=2, <=2 non-zero intervals (pairs restricted to overlapping intervals), splits {first, middle, last}",
-        "long": "piecewise-constant textured series n in (12,16,24) quick / up to 40, <= 2 changes (all placements for n<=16), msl in (1,2,4,5), CUSUM and L2Cost",
+        "long": "piecewise-constant textured series n in (12,16,24) quick / up to 40, <= 2 changes (all placements for n<=16), msl in (1,2,4,5), CUSUM and L2Cost; realistic length n = 72 (thorough also 100, 136) with max_interval_length = n",
         "data": "all series over (0,4) n<=9/11, (0,1,3) and its seed-affine image n<=7/8; 2-column (0,3) n<=5; scores CUSUM, L2Cost, ChangeScore(GaussianVarCost); thresholds 0, 0.5*default, tuned(level 0.3)",
     }
 
